@@ -181,4 +181,11 @@ Fixpoint clean_ops (l : list op) (w : world) : bool :=
   | o :: r => negb (Known w o) && match run o w with Val (_, w') => clean_ops r w' | _ => true end
   end.
 
+(* no operation of the history is a failed re-parenting at the state where it is executed *)
+Fixpoint clean_rep_ops (l : list op) (w : world) : bool :=
+  match l with
+  | [] => true
+  | o :: r => negb (Known_failed_reparent w o) && match run o w with Val (_, w') => clean_rep_ops r w' | _ => true end
+  end.
+
 End Known.
